@@ -20,6 +20,7 @@ THEOREMS = {
     "C11_size_smoothers_keep_rows": "FixedSize / OptimalSize / NPlatePerCellLine (both variants): output is the input filtered by a boolean vector (rows untouched, labels included)",
     "C11_holdout_partition": "plate-balanced hold-out, any oracle: held = held0 marked observed, Permutation (train ++ held0) input (plate labels and masks included), train rows keep their mask",
     "C11_holdout_counts": "under the numpy choice contract: held has exactly n_p rows of each unobserved plate p, none from observed plates; n_p = the exact ceiling of size_p * fraction (exact mode) or the supplied Python value (oracle mode)",
+    "C11_holdout_counts_oracle": "oracle mode: per unobserved plate (plate order) the held-out count is the supplied math.ceil(size*fraction) value; no row of any other plate",
     "C11_ceil_frac_spec": "n = ceil_frac size num den is the least integer with n*den >= size*num",
     "C11_random_holdout_partition": "create_random_holdout partitions likewise and holds out exactly n rows",
     "C11_initial_plate_conserves": "SparseCover initial plate: output rows = input rows up to plate label and mask, same order",
